@@ -12,10 +12,17 @@ Terms (JSON-able lists; sizes count one per node):
   ["DMQ"]          (do-mac (rc_log i) '(rc_log j))   compile-time log i, leaves code (rc_log j)
   ["DMV"]          (do-mac (rc_log i))               compile-time log i, leaves the constant 10*i
   ["V", T]         (rc_val j T)            logs (j, value of T) at the stage it runs in
+Extra leaves, used only by extra_programs() (each put in every context of depth <= 2):
+  ["DMF", k]       (do-mac (rc_log i) FALSY[k])      compile-time log i, leaves a false constant (0, "", [], False, None)
+  ["EWC", [DM*]] / ["EWC", [["EWC", ..]]]   one do-mac / eval-when-compile as the whole body of an
+                   eval-when-compile: the outer body runs once, at compile time, so the inner form's
+                   compile-time part and the code it leaves both run once, at compile time
+  ["LETF"]         (let [v (rc_log i)] (defn f [] (eval-when-compile (setv v (rc_log j))) (rc_val k v)) (f))
+                   the compile-time assignment contributes nothing to the function: it reads the let variable
 
 A program is a list of terms rendered as consecutive top-level forms.  A
-compile-time form directly inside another compile-time form is outside the
-space (the documentation does not define how often it runs).
+compile-time form directly inside an eval-and-compile or do-mac body is
+outside the space (the documentation does not define how often it runs).
 
 Reference (the documentation's sentences):
   * compiling the module evaluates, in textual order and once each, the body
@@ -32,12 +39,13 @@ Reference (the documentation's sentences):
 import itertools
 
 CALLS = (0, 2)
-STAGING = ("EWC", "EAC", "DMQ", "DMV")
+STAGING = ("EWC", "EAC", "DMQ", "DMV", "DMF", "LETF")
+FALSY = [("0", 0), ('""', ""), ("[]", []), ("False", False), ("None", None)]
 
 
 def size(t):
     tag = t[0]
-    if tag in ("L", "DMQ", "DMV"):
+    if tag in ("L", "DMQ", "DMV", "DMF", "LETF"):
         return 1
     if tag == "V":
         return 1 + size(t[1])
@@ -105,6 +113,24 @@ def programs(max_size):
         for p in _seqs(n, True, memo):
             if any(has_staging(t) for t in p):
                 out.append(p)
+    return out + extra_programs()
+
+
+EXTRA_LEAVES = [["DMF", k] for k in range(len(FALSY))] + [
+    ["EWC", [["DMQ"]]], ["EWC", [["DMV"]]], ["EWC", [["EWC", [["L"]]]]], ["EWC", [["DMF", 0]]], ["LETF"]]
+
+
+def extra_programs():
+    """Each extra leaf alone, and in every context of depth <= 2 over {V, DO, FN x0, FN x2, after an L}."""
+    def ctxs(t):
+        return [["V", t], ["DO", [t]], ["DO", [["L"], t]], ["FN", [t], 0], ["FN", [t], 2]]
+    out = []
+    for leaf in EXTRA_LEAVES:
+        level1 = ctxs(leaf)
+        out.append([leaf])
+        out.extend([c] for c in level1)
+        out.extend([c2] for c in level1 for c2 in ctxs(c))
+        out.append([["L"], leaf, ["L"]])
     return out
 
 
@@ -161,12 +187,21 @@ class Build:
             return src, ct, (rt * k, v if k else None)
         if tag in ("EWC", "EAC"):
             text, ct_inner, rt, v = self.body(t[1], in_fn)
-            assert not ct_inner
+            assert not ct_inner or (tag == "EWC" and len(t[1]) == 1)
             head = "eval-when-compile" if tag == "EWC" else "eval-and-compile"
             src = "(%s %s)" % (head, text) if text else "(%s)" % head
             if tag == "EWC":
-                return src, list(rt), ([], None)
+                # a single nested compile-time form: its compile-time part necessarily precedes the code it leaves
+                return src, ct_inner + list(rt), ([], None)
             return src, list(rt), (list(rt), v)
+        if tag == "DMF":
+            i = self.site()
+            lit, val = FALSY[t[1]]
+            return "(do-mac (rc_log %d) %s)" % (i, lit), [("log", i)], ([], val)
+        if tag == "LETF":
+            i, j, k = self.site(), self.site(), self.site()
+            src = ("(let [v (rc_log %d)] (defn f%d [] (eval-when-compile (setv v (rc_log %d))) (rc_val %d v)) (f%d))" % (i, i, j, k, i))
+            return src, [("log", j)], ([("log", i), ("val", k, repr(10 * i))], 10 * i)
         if tag == "DMQ":
             i, j = self.site(), self.site()
             return "(do-mac (rc_log %d) '(rc_log %d))" % (i, j), [("log", i)], ([("log", j)], 10 * j)
